@@ -141,6 +141,31 @@ CLAIMS = {
              'recorded findings; get_likelihood compared only where reproducible',
         tech='Lean 4 proof over a hand-written value-grammar model + generated key tables, behavioural correspondence',
         ref='5 C14'),
+    'C16': dict(
+        text='Lean 4 theorems for every d >= 2, tau matrix, truncation and every accepted sequence of tie-breaking choices: '
+             'tree count min(d-1, t) >= 1, tree k is a spanning tree with d-k edges built by growth order, child edges have '
+             '|A sym-diff B| = 2 with conditioning set the intersection of size k, proximity (checkConstraint iff shared node), '
+             'star in every tree of a center vine and path in every tree of a direct vine, no pair conditioned twice for '
+             'center/direct, greedy-cut property of the Prim steps, the adj_set-empty branch unreachable (fit terminates), '
+             'sound decidable regular-vine checker; admissible theta from the generated tables; tied by replaying the real '
+             'choices through the model (acceptors where Python tie-breaking is unspecified) and running the checker on every '
+             'real fitted vine.',
+        note='maximum-spanning-tree optimality (exchange argument) and pairs-once for arbitrary regular vines are partial: the '
+             'sound checker and a Kruskal weight comparison run on every real vine instead; NaN behaviour of argmax/sorted not modelled',
+        tech='Lean 4 proof over a hand-written vine-construction model with refinement acceptors + structural correspondence',
+        ref='5 C16'),
+    'C20': dict(
+        text='Lean 4 theorem (core Lean): for EVERY program of the write-effect IR, if the checker noParamWrite accepts it then '
+             'along every finite trace over its statements, with arbitrary written contents, every caller-owned object is '
+             'unchanged (hence a second identical call sees the same arguments); the IR of every public entry point is '
+             'regenerated from the source on every run (SSA, content variables, decorators, dispatch, inlining) and the '
+             'checker is evaluated on it by the driver; concrete rejected/accepted program shapes proved; plot theorems: the '
+             'Real / Synthetic traces are exactly the rows of real[columns] / synth[columns], default columns, arity errors; '
+             'tied by deep-snapshot calls of every entry point with every container kind and by Figure.data.',
+        note='faithfulness of the IR extraction is validated dynamically (observed mutations within the may-write set; every '
+             'accepted entry point shows no mutation), external calls are pure by whitelist; Tree.fit tau_matrix is a recorded finding',
+        tech='Lean 4 soundness proof of an effect checker over a translator-regenerated IR + dynamic snapshot correspondence',
+        ref='5 C20'),
 }
 
 
